@@ -95,8 +95,10 @@ class Doc:
     """a document, its full run and the path bookkeeping"""
 
     def __init__(self, schema, spec, xml: bytes):
+        unpollute(schema)
         self.eg = C6.Eager(schema, xml)
         eg = self.eg
+        self.polluted = unpollute(schema)     # finding C20-F6: the full run left nodes in the schema's XPath tree
         self.tns = spec.tns
         self.schema = schema
         # plain step: the element is governed by a named child of the declared type of its parent's declaration
@@ -154,6 +156,15 @@ class Doc:
         elif self.tns and form == 'default':
             ns = {'': L.TNS}
         return '/' + '/'.join(steps), ns
+
+
+def note_pollution(ctx: Ctx, doc: 'Doc', base: dict) -> None:
+    """C20-F6 observed directly: after the full validation of the document the schema's XPath tree has top-level nodes
+    that are not global elements (schema.findall('/*') returns them)"""
+    if doc.polluted:
+        ctx.known_hit('C20-F6', dict(base, api="schema.findall('/*') after a full validation"),
+                      {'kind': 'pollution', 'spurious top-level nodes': doc.polluted})
+        ctx.count('full-run-pollutes-schema-xpath-tree')
 
 
 def is_qname_decl(xe: Any) -> bool:
@@ -265,6 +276,42 @@ def errors_as(eg: Any, elem: Any, xsd_element: Any, namespaces: Any, ancestors: 
     except XMLSchemaStopValidation:
         pass
     return [(C6.bare_path(e.path), C6.canon_err(e)) for e in context.errors]
+
+
+# ---------------------------------------------------------------------------------------------------
+# finding C20-F6: a validation run can append spurious top-level nodes to the schema's XPath tree
+# (XsdElement.xpath_node / XsdAnyElement.xpath_node -> build_schema_node_tree(global_elements=schema_node.children)).
+# The harness removes them before every lookup / run so that one case cannot influence the next one, and re-runs a
+# deviating call with exactly that defect repaired (the two call sites get a copy of the list) to attribute it.
+
+def unpollute(schema: Any) -> int:
+    node = schema.xpath_node
+    globals_ = {id(e) for e in schema.maps.elements.values()}
+    keep = [c for c in node.children if id(getattr(c, 'value', None)) in globals_]
+    n = len(node.children) - len(keep)
+    if n:
+        node.children[:] = keep
+    return n
+
+
+class repaired_xpath_nodes:
+    """context manager: elements.py:431 / wildcards.py:479 pass a copy of the schema node's children"""
+
+    def __enter__(self):
+        import xmlschema.validators.elements as E_
+        import xmlschema.validators.wildcards as W_
+        self.mods = (E_, W_)
+        self.orig = E_.build_schema_node_tree
+
+        def safe(root, uri=None, elements=None, global_elements=None):
+            return self.orig(root, uri, elements, None if global_elements is None else list(global_elements))
+        for m in self.mods:
+            m.build_schema_node_tree = safe
+        return self
+
+    def __exit__(self, *a):
+        for m in self.mods:
+            m.build_schema_node_tree = self.orig
 
 
 NOT_FOUND_RE = re.compile(r"global component .* not found")
@@ -453,12 +500,26 @@ class Partial:
         self.getpath = etree_getpath
         self.full_data: Any = None
         self.full_done = False
+        self.polluted_last = 0
 
     # ---- the real runs
     def run(self, path: str, namespaces: Any) -> list:
         from xmlschema import XMLResource
-        errs = list(self.schema.iter_errors(XMLResource(self.xml), path=path, namespaces=namespaces))
+        unpollute(self.schema)
+        try:
+            errs = list(self.schema.iter_errors(XMLResource(self.xml), path=path, namespaces=namespaces))
+        finally:
+            self.polluted_last = unpollute(self.schema)
         return [(C6.bare_path(e.path), C6.canon_err(e)) for e in errs]
+
+    def decode_part(self, path: str, namespaces: Any) -> Any:
+        from xmlschema import XMLResource
+        unpollute(self.schema)
+        try:
+            part, _ = self.schema.decode(XMLResource(self.xml), validation='lax', path=path, namespaces=namespaces)
+        finally:
+            self.polluted_last = unpollute(self.schema)
+        return part
 
     def selection(self, path: str, namespaces: Any) -> list[int]:
         return [self.eg.ids.get(id(e), -1) for e in self.eg.res.iterfind(path, namespaces)]
@@ -561,6 +622,18 @@ class Partial:
         if got_ns == non_stateful([c for _, c, _ in truth]):
             ctx.count(tag + ':same')
             return got_ns
+        if self.polluted_last:
+            # C20-F6: this very run appended nodes to the schema's XPath tree, its later lookups saw them.
+            # The same call with exactly that repaired:
+            with repaired_xpath_nodes():
+                got2 = self.run(path, nsx)
+            if [c for _, c in got2] != [c for _, c in got]:
+                ctx.known_hit('C20-F6')
+                ctx.count(tag + ':C20-F6')
+                got = got2
+                got_ns = non_stateful([c for _, c in got])
+                if got_ns == non_stateful([c for _, c, _ in truth]):
+                    return got_ns
         # what the current code does when the declaration found by the path is not the governing one
         lk = self.lookups(path, nsx, selected)
         pred: list = []
@@ -624,6 +697,7 @@ class Partial:
                 self.full_data, _ = self.schema.decode(XMLResource(self.xml), validation='lax')
             except Exception as ex:  # noqa
                 self.full_data = ex
+            unpollute(self.schema)
         return self.full_data
 
     def evaluate_data(self, case: dict, path: str, nsx: Any, nid: int, wild_path: bool, has_pos: bool) -> None:
@@ -635,7 +709,7 @@ class Partial:
             ctx.count('partial-decode:full-raises:' + type(full).__name__)
             return
         try:
-            part, _ = self.schema.decode(XMLResource(self.xml), validation='lax', path=path, namespaces=nsx)
+            part = self.decode_part(path, nsx)
         except Exception as ex:  # noqa
             ctx.failure('partial decoding raised', case, {'exception': repr(ex)})
             return
@@ -651,6 +725,19 @@ class Partial:
         if a == b and type(a) is type(b):
             ctx.count('partial-decode:same')
             return
+        if self.polluted_last:
+            with repaired_xpath_nodes():       # C20-F6, see evaluate()
+                part2 = self.decode_part(path, nsx)
+            try:
+                a2 = norm_data(part2)
+            except Collision:
+                a2 = a
+            if a2 != a:
+                ctx.known_hit('C20-F6')
+                ctx.count('partial-decode:C20-F6')
+                a = a2
+                if a == b and type(a) is type(b):
+                    return
         hit = [i for i, _ in self.unscoped([nid])]
         if hit:
             # C20-F3 (what remains): the values of the elements whose xsi:type is not resolved are left out
@@ -973,6 +1060,7 @@ def family(ctx: Ctx, drv: Optional[Driver]) -> None:
             except Exception as ex:  # noqa
                 ctx.count('full-run-raises:' + type(ex).__name__)
                 continue
+            note_pollution(ctx, doc, base)
             ctx.count('document:%s' % ('valid' if not doc.eg.errors else 'invalid'))
             check_find(ctx, spec, doc, reqs, pend, base)
             check_partial(ctx, spec, doc, xml, reqs, pend, base)
@@ -1126,6 +1214,7 @@ def subst_family(ctx: Ctx, drv: Optional[Driver], n_schemas: Optional[int] = Non
         except Exception as ex:  # noqa
             ctx.count('subst-full-run-raises:' + type(ex).__name__)
             continue
+        note_pollution(ctx, doc, base)
         eg = doc.eg
         ctx.count('subst-document:%s' % ('valid' if not eg.errors else 'invalid'))
         reqs: list = []
@@ -1271,6 +1360,7 @@ def run_one(ctx: Ctx, drv: Optional[Driver], xsd: str, xml: bytes, only: Optiona
     if only and only.get('family'):
         base = dict(base, family=only['family'])
     doc = Doc(schema, spec, xml)
+    note_pollution(ctx, doc, base)
     if only and only.get('path') and str(only.get('api', '')).startswith(('iter_errors', 'decode')):
         # the stored path itself, as it was spelled
         pt = Partial(ctx, spec, doc, xml, base)
